@@ -384,6 +384,61 @@ def h_presence():
     return h
 
 
+def oracle_layout(kind):
+    """real priorized stage 1 on noise-free model images of special layouts: 'edge' = isolated sources whose central pixel is in
+    the first / last row or column; 'faint-neighbour' = jointly fitted pairs with a 20:1 brightness ratio two beam widths apart"""
+    from astropy.io import fits
+    from checks import C14
+    sfm = loader.real('source_finder')
+    wh = loader.real('wcs_helpers')
+    models = loader.real('models')
+    d = tempfile.mkdtemp(prefix='c05l_', dir='/var/tmp')
+    try:
+        N, M = 70, 90
+        hdr = fits.Header()
+        hdr['NAXIS'] = 2
+        hdr['NAXIS1'], hdr['NAXIS2'] = M, N
+        hdr['CTYPE1'], hdr['CTYPE2'] = 'RA---SIN', 'DEC--SIN'
+        hdr['CRVAL1'], hdr['CRVAL2'] = 40.0, -30.0
+        hdr['CRPIX1'], hdr['CRPIX2'] = M / 2, N / 2
+        scale = 10.0 / 3600
+        hdr['CDELT1'], hdr['CDELT2'] = -scale, scale
+        hdr['BMAJ'], hdr['BMIN'], hdr['BPA'] = 4 * scale, 4 * scale, 0.0
+        helper = wh.WCSHelper.from_header(hdr)
+        if kind == 'edge':
+            spec = [((0.2, 30.3), 10.0, 0), ((35.1, 0.3), 12.0, 1), ((69.3, 60.2), 9.0, 2), ((30.2, 89.2), 11.0, 3), ((35.4, 45.3), 8.0, 4)]
+        else:
+            spec = [((20.2, 20.4), 40.0, 0), ((20.6, 30.1), 2.0, 0), ((50.3, 60.2), -30.0, 1), ((41.0, 60.5), -1.5, 1)]
+        cat = []
+        img = real_np.zeros((N, M))
+        for k, ((r0, c0), peak, isl) in enumerate(spec):
+            s = models.ComponentSource()
+            s.ra, s.dec = helper.pix2sky((r0 + 1, c0 + 1))
+            s.a, s.b, s.pa = 50.0, 45.0, 15.0 * k
+            s.peak_flux = peak
+            s.island, s.source, s.uuid = isl, k, '%s%d' % (kind[0], k)
+            s.psf_a, s.psf_b, s.psf_pa = 40.0, 40.0, 0.0
+            s.err_ra = s.err_dec = s.err_a = s.err_b = s.err_pa = 0.01
+            s.local_rms = 0.05
+            _, _, fx, fy, th = helper.sky2pix_ellipse((s.ra, s.dec), s.a / 3600, s.b / 3600, s.pa)
+            img += C14.gauss_oracle((N, M), r0, c0, fx, fy, th, s.peak_flux)
+            cat.append(s)
+        fn = os.path.join(d, kind + '.fits')
+        fits.PrimaryHDU(img, header=hdr).writeto(fn, overwrite=True)
+        f = sfm.SourceFinder(log=logging.getLogger('c05'))
+        pr = f.priorized_fit_islands(fn, catalogue=copy.deepcopy(cat), rms=0.05, bkg=0.0, stage=1, cores=1, doregroup=False)
+        by = {s.uuid: s for s in pr}
+        for s, ((r0, c0), peak, isl) in zip(cat, spec):
+            p = by.get(s.uuid)
+            if p is None or not (p.peak_flux == p.peak_flux) or abs(p.peak_flux / s.peak_flux - 1) > 2e-3:
+                return True, kind + '-flux', '%s layout: source centred at 0-based (row, col) = (%.1f, %.1f) of a %dx%d image, peak %.3f, comes back as %s' % (kind, r0, c0, N, M, s.peak_flux, 'missing' if p is None else '%.4f' % p.peak_flux)
+        return False, None, None
+    except Exception as e:
+        return True, 'raises-%s' % type(e).__name__, repr(e)[:300]
+    finally:
+        shutil.rmtree(d, ignore_errors=True)
+
+
 def oracle_blend():
     """real priorized stage 1 on an east-west blend of three sources fitted jointly (one island): the image is exactly the
     model of the catalogue, so every flux must come back"""
@@ -615,6 +670,13 @@ def oracle_pairing():
         shutil.rmtree(d, ignore_errors=True)
 
 
+def presence_replay():
+    bad, cls, detail = oracle_blend()
+    if not bad:
+        bad, cls, detail = oracle_layout('edge')
+    return bad, cls, detail
+
+
 def refit_replay():
     bad, cls, detail = oracle((1,))
     if not bad:
@@ -656,7 +718,7 @@ def run(rep):
     try:
         st, res = explore(h_presence())
         rep.stats(st)
-        collect(rep, res, 'K-presence', oracle_blend, dict(kind='blend'))
+        collect(rep, res, 'K-presence', presence_replay, dict(kind='layout', layout='edge'))
     except slicer.AnchorMissing as e:
         rep.inconc('anchor-missing %s' % e)
     rep.end_kernel()
@@ -686,6 +748,11 @@ def run(rep):
     rep.validated_runs(2)
     if bad:
         rep.finding('C05/K-presence/%s' % cls, dict(kind='blend'), detail)
+    for lay in ('edge', 'faint-neighbour'):
+        bad, cls, detail = oracle_layout(lay)
+        rep.validated_runs(1)
+        if bad:
+            rep.finding('C05/K-presence/%s' % cls, dict(kind='layout', layout=lay), detail)
     for kw, w in ((dict(stages=(1, 2, 3)), dict(kind='priorized', stages=[1, 2, 3])), (dict(stages=(1,), small=True), dict(kind='priorized-small', stages=[1])), (dict(stages=(1, 2), beam=(5.4, 4.0)), dict(kind='priorized-beam', stages=[1, 2])), (dict(stages=(1,), nopsf=True), dict(kind='priorized-nopsf', ratio=None)), (dict(stages=(1,), nopsf=True, ratio=1.0), dict(kind='priorized-nopsf', ratio=1.0))):
         bad, cls, detail = oracle(**kw)
         rep.validated_runs(1)
@@ -720,6 +787,8 @@ def replay(w):
         bad, cls, detail = oracle((1,), nopsf=True, ratio=wit.get('ratio'))
     elif wit.get('kind') == 'blend':
         bad, cls, detail = oracle_blend()
+    elif wit.get('kind') == 'layout':
+        bad, cls, detail = oracle_layout(wit.get('layout', 'edge'))
     elif wit.get('kind') == 'priorized-beam':
         bad, cls, detail = oracle(tuple(wit.get('stages', [1])), beam=(5.4, 4.0))
     else:
